@@ -32,6 +32,8 @@ val mul : nat -> nat -> nat
 
 val sub : nat -> nat -> nat
 
+val eqb : bool -> bool -> bool
+
 module Nat :
  sig
   val eqb : nat -> nat -> bool
@@ -46,6 +48,8 @@ module Nat :
 val tl : 'a1 list -> 'a1 list
 
 val nth_error : 'a1 list -> nat -> 'a1 option
+
+val last : 'a1 list -> 'a1 -> 'a1
 
 val removelast : 'a1 list -> 'a1 list
 
@@ -139,6 +143,10 @@ module Coq_Pos :
 
 module N :
  sig
+  val succ_double : n -> n
+
+  val double : n -> n
+
   val add : n -> n -> n
 
   val sub : n -> n -> n
@@ -152,6 +160,14 @@ module N :
   val leb : n -> n -> bool
 
   val ltb : n -> n -> bool
+
+  val pos_div_eucl : positive -> n -> n * n
+
+  val div_eucl : n -> n -> n * n
+
+  val div : n -> n -> n
+
+  val modulo : n -> n -> n
 
   val to_nat : n -> nat
 
@@ -317,9 +333,13 @@ val ev_ToLexemeType : event -> lexkind option
 
 val dir_Jsight : n
 
+val dir_Info : n
+
 val dir_Title : n
 
 val dir_Version : n
+
+val dir_Description : n
 
 val dir_Server : n
 
@@ -343,6 +363,10 @@ val dir_Request : n
 
 val dir_HTTPResponseCode : n
 
+val dir_Path : n
+
+val dir_Headers : n
+
 val dir_Query : n
 
 val dir_Type : n
@@ -356,6 +380,10 @@ val dir_Paste : n
 val dir_Protocol : n
 
 val dir_Method : n
+
+val dir_Params : n
+
+val dir_Result : n
 
 val dir_TAG : n
 
@@ -888,9 +916,31 @@ val include_checks : (icond * string) list
 
 val jerr_AnnotationIsForbiddenForTheDirective : string
 
+val jerr_ApartFromTheOpeningParenthesis : string
+
+val jerr_BodyIsEmpty : string
+
+val jerr_CannotUseTheTypeAndSchemaNotationParametersTogether : string
+
 val jerr_ContextNotClosed : string
 
+val jerr_DescriptionIsEmpty : string
+
+val jerr_DirectiveBaseURLAlreadyDefined : string
+
+val jerr_DirectiveINFOGottaBeOnlyOneTime : string
+
+val jerr_DirectiveJSIGHTGottaBeOnlyOneTime : string
+
+val jerr_DirectiveJSIGHTShouldBeTheFirst : string
+
+val jerr_DirectiveNotAllowed : string
+
 val jerr_DuplicateNames : string
+
+val jerr_HTTPMethodNotFound : string
+
+val jerr_HTTPResourceNotFound : string
 
 val jerr_IncludeDirectiveErr : string
 
@@ -898,19 +948,67 @@ val jerr_IncorrectDirectiveContext : string
 
 val jerr_IncorrectParameter : string
 
+val jerr_IncorrectPath : string
+
+val jerr_IncorrectRequest : string
+
+val jerr_InfoIsEmpty : string
+
+val jerr_JsonRpcMethodNotFound : string
+
+val jerr_JsonRpcResourceNotFound : string
+
 val jerr_MacroIsEmpty : string
 
 val jerr_MacroNotFound : string
 
+val jerr_MethodIsAlreadyDefinedInResource : string
+
+val jerr_NotUniqueDirective : string
+
+val jerr_NotUniqueOperationID : string
+
+val jerr_NotUniquePath : string
+
+val jerr_ParametersAreForbiddenForTheDirective : string
+
 val jerr_ParametersIsAlreadyDefined : string
+
+val jerr_ParentNotFound : string
+
+val jerr_PathEmptyParameter : string
+
+val jerr_PathNotFound : string
+
+val jerr_PathParameterIsDuplicatedInThePath : string
+
+val jerr_PathsAreSimilar : string
+
+val jerr_ProtocolNotFound : string
+
+val jerr_ProtocolParameterErr : string
 
 val jerr_RecursionIsProhibited : string
 
+val jerr_RequestIsEmpty : string
+
 val jerr_RequiredParameterNotSpecified : string
+
+val jerr_ResponsesIsEmpty : string
+
+val jerr_ServerNotFound : string
+
+val jerr_TagNotFound : string
 
 val jerr_ThereIsNoExplicitContextForClosure : string
 
+val jerr_UndefinedRequestBodyForResource : string
+
 val jerr_UnknownDirective : string
+
+val jerr_UnsupportedVersion : string
+
+val jerr_WrongDescriptionContext : string
 
 type pkey =
 | KPath
@@ -1218,6 +1316,218 @@ type xres =
 
 val compile_macros : (coords -> (n * z) option) -> nat -> dir list -> xres
 
+type bodyfmt =
+| FJson
+| FPlain
+| FBinary
+
+type response = { rs_code : bytes; rs_annot : bytes; rs_dir : dir;
+                  rs_headers : dir option; rs_body : bodyfmt option }
+
+type request = { rq_dir : dir; rq_headers : dir option;
+                 rq_body : bodyfmt option }
+
+type http_inter = { hi_id : bytes; hi_method : bytes; hi_path : bytes;
+                    hi_annot : bytes; hi_descr : bytes option;
+                    hi_tags : bytes list; hi_query : (bytes * bytes) option;
+                    hi_request : request option;
+                    hi_responses : response list; hi_opid : bytes option }
+
+type rpc_inter = { ri_id : bytes; ri_method : bytes; ri_path : bytes;
+                   ri_annot : bytes; ri_descr : bytes option;
+                   ri_tags : bytes list; ri_params : bool; ri_result : 
+                   bool }
+
+type inter =
+| IHttp of http_inter
+| IRpc of rpc_inter
+
+val inter_id : inter -> bytes
+
+type tag = { tg_name : bytes; tg_title : bytes; tg_descr : bytes option;
+             tg_http : bytes list; tg_rpc : bytes list }
+
+type info = { in_dir : dir; in_title : bytes; in_version : bytes;
+              in_descr : bytes option }
+
+type catalog = { c_jsight : bytes; c_info : info option;
+                 c_servers : ((bytes * bytes) * bytes) list;
+                 c_tags : tag list; c_types : ((bytes * bytes) * bytes) list;
+                 c_inters : inter list; c_url_paths : bytes list;
+                 c_similar : (bytes * bytes) list; c_opids : bytes list;
+                 c_protocol_urls : coords list }
+
+val empty_catalog : catalog
+
+val kerr : dir -> cmsg -> catalog cres
+
+val kerr1 : dir -> string -> catalog cres
+
+val required : dir -> string -> catalog cres
+
+val has_annot : dir -> bool
+
+val has_body : dir -> bool
+
+val is_method : n -> bool
+
+val dir_path : dir -> dir list -> (bytes, string) sum
+
+val dir_method : dir -> dir list -> n option
+
+val dir_rpc_method : dir -> dir list -> bytes option
+
+val sp : n list
+
+val http_id : dir -> dir list -> ((bytes * bytes) * bytes, string) sum
+
+val rpc_id : dir -> dir list -> ((bytes * bytes) * bytes, string) sum
+
+val path_segments : bytes -> bytes list
+
+val is_param_seg : bytes -> bool
+
+val join_slash : bytes list -> bytes
+
+val path_params_aux : bytes list -> bytes list -> (bytes * bytes) list
+
+val path_params : bytes -> (bytes * bytes) list
+
+val first_dup : bytes list -> bytes list -> bytes option
+
+val path_params_error : bytes -> cmsg option
+
+val assoc_get : (bytes * bytes) list -> bytes -> bytes option
+
+val assoc_set : (bytes * bytes) list -> bytes -> bytes -> (bytes * bytes) list
+
+val check_similar :
+  (bytes * bytes) list -> (bytes * bytes) list -> ((bytes * bytes) list,
+  cmsg) sum
+
+val crlf_to_lf : bytes -> bytes
+
+val is_nl : n -> bool
+
+val is_sp_tab : n -> bool
+
+val is_unicode_space_ascii : n -> bool
+
+val trim_left : (n -> bool) -> bytes -> bytes
+
+val trim_right : (n -> bool) -> bytes -> bytes
+
+val trim_both : (n -> bool) -> bytes -> bytes
+
+val remove_parens : bytes -> (bytes, string) sum
+
+val split_lines : bytes -> bytes -> bytes list
+
+val first_prefix : bytes -> bytes
+
+val common_prefix : bytes -> bytes -> bytes
+
+val longest_ws_prefix : bytes list -> bytes
+
+val strip_prefix : bytes -> bytes -> bytes
+
+val has_prefix_b : bytes -> bytes -> bool
+
+val join_nl : bytes list -> bytes
+
+val description : bytes -> (bytes, string) sum
+
+val find_tag : tag list -> bytes -> tag option
+
+val update_tag : tag list -> bytes -> (tag -> tag) -> tag list
+
+val drop_while_list : ('a1 -> bool) -> 'a1 list -> 'a1 list
+
+val path_tag_title : bytes -> bytes
+
+val hex_digit : n -> n
+
+val path_unescaped : n -> bool
+
+val path_escape : bytes -> bytes
+
+val replace_first : n -> n -> bytes -> bytes
+
+val tag_name : bytes -> bytes
+
+val add_id_to_tag : bool -> bytes -> tag -> tag
+
+val tags_child : dir -> dir option
+
+val interaction_tags :
+  catalog -> dir -> dir list -> bool -> bytes -> bytes -> (tag list * bytes
+  list, cerr) sum
+
+val set_tags : catalog -> tag list -> catalog
+
+val set_inters : catalog -> inter list -> catalog
+
+val set_similar : catalog -> (bytes * bytes) list -> catalog
+
+val find_inter : inter list -> bytes -> inter option
+
+val update_inter : inter list -> bytes -> (inter -> inter) -> inter list
+
+val upd_http : catalog -> bytes -> (http_inter -> http_inter) -> catalog
+
+val upd_rpc : catalog -> bytes -> (rpc_inter -> rpc_inter) -> catalog
+
+val find_http : catalog -> bytes -> http_inter option
+
+val find_rpc : catalog -> bytes -> rpc_inter option
+
+val not_found : dir -> string -> bytes -> catalog cres
+
+val notation_format : bytes -> bodyfmt
+
+val is_any_or_empty : bytes -> bool
+
+val is_jsight : bytes -> bool
+
+val check_paths : catalog -> dir -> dir list -> (catalog * bytes, cerr) sum
+
+val is_rpc_child : dir -> bool
+
+val url_children_compatible : dir -> cerr option
+
+val parent_kind : dir list -> n
+
+val add_request : catalog -> dir -> dir list -> catalog cres
+
+val add_response : catalog -> dir -> dir list -> catalog cres
+
+val add_directive : n list -> catalog -> dir -> dir list -> catalog cres
+
+val add_description : catalog -> dir -> dir list -> bytes -> catalog cres
+
+val add_branch :
+  (coords -> bytes) -> n list -> nat -> catalog -> dir -> dir list -> catalog
+  cres
+
+val add_all :
+  (coords -> bytes) -> n list -> nat -> catalog -> dir list -> catalog cres
+
+val collect_tags : catalog -> dir list -> catalog cres
+
+val validate : catalog -> cerr option
+
+val type_without_body : dir list -> cerr option
+
+val same_dir : coords -> coords -> bool
+
+val collect_paths :
+  nat -> dir list -> dir list -> coords option -> (coords option, cerr) sum
+
+val missed_path_errors : dir list -> cerr option
+
+val build_catalog :
+  (coords -> bytes) -> n list -> nat -> dir list -> catalog cres
+
 type otable = (((bytes * okind) * z) * olen_res) list
 
 type etable = (((bytes * z) * z) * (n * z)) list
@@ -1244,18 +1554,27 @@ val fname_of : (bytes * bytes) list -> n -> bytes
 
 val render_dir : nat -> (bytes * bytes) list -> dir -> rdir
 
+type cat_result =
+| CatOk of catalog
+| CatErr of rerr
+| CatPanic of cpanic
+| CatFuel
+
 type tree_result =
 | TScanErr of rerr * (string * bytes) list
 | TScanPanic of cpanic * (string * bytes) list
 | TFuel
 | TScanned of rdir list * (string * bytes) list * tree_phase2
 and tree_phase2 =
-| T2Ok of rdir list * bytes list * rdir list * bytes list
+| T2Ok of rdir list * bytes list * rdir list * bytes list * cat_result
 | T2Err of rerr
 | T2ErrOneOf of rerr list
 | T2Panic of cpanic
 | T2Fuel
 
 val render_depth : nat
+
+val tree_case_b :
+  n list -> fsmap -> bytes -> otable -> etable -> nat -> tree_result
 
 val tree_case : fsmap -> bytes -> otable -> etable -> nat -> tree_result
